@@ -620,6 +620,27 @@ mod verif_kani {
         mem::forget(store);
     }
 
+    // map_file when mmap fails: MAP_FAILED must never be handed out as a mapping (the real code asserts; it must not return)
+    unsafe fn k_mmap_fail(_addr: *mut c_void, _len: size_t, _prot: c_int, _flags: c_int, _fd: c_int, _off: off_t) -> *mut c_void {
+        libc::MAP_FAILED
+    }
+    #[kani::proof]
+    #[kani::should_panic]
+    #[kani::stub(libc::mmap, k_mmap_fail)]
+    #[kani::stub(libc::fstat, k_fstat_size)]
+    #[kani::stub(libc::close, k_close)]
+    #[kani::stub(std::thread::panicking, k_panicking)]
+    fn ffi_map_file_mmap_fails() {
+        let _obligation = "kani.ffi.mmap_failure_is_never_handed_out_as_a_mapping";
+        ledger_init();
+        let fd = unsafe { alloc_fd() };
+        let store = BackingStore::from_fd(fd);
+        let len: usize = kani::any();
+        kani::assume(len > 0);
+        let (_p, _l) = unsafe { store.map_file(Some(len)) };
+        mem::forget(store);
+    }
+
     // create_shmem (shm_open backing): exclusive creation, private mode, unlinked at once (no name left behind), sized by ftruncate
     static mut SHM_OPEN_FLAGS: c_int = 0;
     static mut SHM_OPEN_MODE: mode_t = 0;
